@@ -594,9 +594,12 @@ def replay(ck, path):
 META = {
     "text": "Machine-checked theorems (coq/Props/C04.v) about a Gallina model of analysis.RewriteClause and Analyzer.CheckRule "
             "(after fixes F3a-c, N19) over C01's clause syntax and engine model: the rewritten body is a permutation of the body "
-            "as written (no literal dropped or duplicated), a clause with a head variable, a named variable of a negated atom or an "
-            "operand of a comparison/inequality that nothing binds is rejected, and for accepted alias-free clauses every solution "
-            "of the left-to-right join binds every variable where a literal or the head needs it. Every run generates clauses over "
+            "as written (no literal dropped or duplicated); a clause as written with a head variable, a named variable of a negated "
+            "atom or an operand of a comparison/inequality that nothing binds is rejected; for accepted alias-free clauses (outside "
+            "the known findings N61/N64/N65) evaluation never fails for want of a value - every error of the join, the head or the "
+            "let-transform is a function or comparison rejecting ground arguments - and every solution yields a head fact; and the "
+            "solutions of the join on the rewritten, wildcard-replaced clause are exactly the declarative solutions of the clause as "
+            "written (every literal holds, wildcards existential per literal), likewise the derived facts. Every run generates clauses over "
             "every placement of variables/wildcards in every premise order, compares analysis verdict and premise order of the real "
             "code with the model, evaluates accepted clauses with the real engine on a small EDB and compares the result with the "
             "declarative reading of the clause as written (brute force in Coq and independently in Python), under recover() with a "
